@@ -400,6 +400,10 @@ package martian
 // C02: an HTTP/1.0 client is never sent the chunked transfer coding: a body of
 // unknown length is delimited by closing the connection.
 //@ ensures old(res.Request.ProtoMajor < 1 || (res.Request.ProtoMajor == 1 && res.Request.ProtoMinor < 1)) && old(res.Request.Method) != "CONNECT" && old(res.ProtoMajor == 1 && res.ProtoMinor == 1 && res.ContentLength == -1 && !(res.Request.Method == "HEAD" || res.StatusCode / 100 == 1 || res.StatusCode == 204 || res.StatusCode == 304)) ==> res.Close && result != nil && (wroteTE() == 0 || wroteTE() == old(wroteTE()))
+// C02: a response with a body of unknown length that was written to a connection
+// that stays open carries a framing of its own (the chunked coding): the next
+// response can never run into its body.
+//@ ensures result == nil && !deferredReport(old(res.Request.Method), old(res.StatusCode)) && old(res.ProtoMajor == 1 && res.ProtoMinor == 1 && res.ContentLength == -1 && !(res.Request.Method == "HEAD" || res.StatusCode / 100 == 1 || res.StatusCode == 204 || res.StatusCode == 304)) ==> wroteTE() > 0
 // C12: a failed write closes the connection - nothing follows a truncated response.
 //@ ensures result == nil || result == errClose
 //@ ensures wErr() && !old(wErr()) ==> result == errClose
